@@ -974,3 +974,143 @@ func checkLocks(c *Checked) string {
 	}
 	return ""
 }
+
+// ---- C13, second sentence: an independent copy of the type-derived naming rule ----
+
+func derivedNested(t types.Type) string {
+	if b, ok := t.(*types.Basic); ok {
+		s := b.String()
+		if s == "" {
+			return s
+		}
+		return strings.ToLower(s[:1]) + s[1:]
+	}
+	return derivedName(t)
+}
+
+func derivedName(t types.Type) string {
+	switch t := t.(type) {
+	case *types.Named:
+		if t.Obj().Name() == "error" {
+			return "err"
+		}
+		n := t.Obj().Name()
+		d := strings.ToLower(n[:1]) + n[1:]
+		if d == n {
+			d += "MoqParam"
+		}
+		return d
+	case *types.Basic:
+		switch t.Info() {
+		case types.IsBoolean:
+			return "b"
+		case types.IsInteger:
+			return "n"
+		case types.IsFloat:
+			return "f"
+		case types.IsString:
+			return "s"
+		}
+		return "v"
+	case *types.Array:
+		return derivedNested(t.Elem()) + "s"
+	case *types.Slice:
+		return derivedNested(t.Elem()) + "s"
+	case *types.Struct:
+		return "val"
+	case *types.Pointer:
+		return derivedName(t.Elem())
+	case *types.Signature:
+		return "fn"
+	case *types.Interface:
+		return "ifaceVal"
+	case *types.Map:
+		e := derivedNested(t.Elem())
+		if e == "" {
+			return derivedNested(t.Key()) + "To"
+		}
+		return derivedNested(t.Key()) + "To" + strings.ToUpper(e[:1]) + e[1:]
+	case *types.Chan:
+		return derivedNested(t.Elem()) + "Ch"
+	}
+	return "v"
+}
+
+var derivedSuffix = regexp.MustCompile(`^(MoqParam|[0-9])*$`)
+
+// checkDerivedNames: every unnamed (or blank) parameter of a mocked method is called by the name
+// the fixed rule derives from its type, possibly followed by MoqParam / digits where a collision
+// forced a rename.
+func checkDerivedNames(c *Checked, job JobCfg) string {
+	if c.src == nil {
+		return ""
+	}
+	mockIface := map[string]*types.Interface{}
+	for _, a := range job.Args {
+		in, mk := splitArg(a)
+		obj := c.src.Scope().Lookup(in)
+		if obj == nil || !types.IsInterface(obj.Type()) {
+			continue
+		}
+		if it, ok := obj.Type().Underlying().(*types.Interface); ok {
+			mockIface[mk] = it.Complete()
+		}
+	}
+	for _, d := range c.file.Decls {
+		fd, ok := d.(*ast.FuncDecl)
+		if !ok || fd.Recv == nil || len(fd.Recv.List) != 1 {
+			continue
+		}
+		recv := ""
+		if st, ok := fd.Recv.List[0].Type.(*ast.StarExpr); ok {
+			switch x := st.X.(type) {
+			case *ast.Ident:
+				recv = x.Name
+			case *ast.IndexExpr:
+				if id, ok := x.X.(*ast.Ident); ok {
+					recv = id.Name
+				}
+			case *ast.IndexListExpr:
+				if id, ok := x.X.(*ast.Ident); ok {
+					recv = id.Name
+				}
+			}
+		}
+		it := mockIface[recv]
+		if it == nil {
+			continue
+		}
+		var m *types.Func
+		for i := 0; i < it.NumMethods(); i++ {
+			if it.Method(i).Name() == fd.Name.Name {
+				m = it.Method(i)
+			}
+		}
+		if m == nil {
+			continue
+		}
+		sig := m.Type().(*types.Signature)
+		var names []string
+		for _, f := range fd.Type.Params.List {
+			for _, n := range f.Names {
+				names = append(names, n.Name)
+			}
+		}
+		if len(names) != sig.Params().Len() {
+			continue
+		}
+		for i := 0; i < sig.Params().Len(); i++ {
+			p := sig.Params().At(i)
+			if p.Name() != "" && p.Name() != "_" {
+				continue
+			}
+			want := derivedName(p.Type())
+			got := names[i]
+			if !strings.HasPrefix(got, want) || !derivedSuffix.MatchString(got[len(want):]) {
+				return fmt.Sprintf("method %s: unnamed parameter %d of type %s is called %s; the rule derives %s (plus MoqParam/digits on a collision)",
+					fd.Name.Name, i, types.TypeString(p.Type(), func(*types.Package) string { return "" }), got, want)
+			}
+		}
+	}
+	return ""
+}
